@@ -120,7 +120,7 @@ impl Runner {
                 self.samples.push(json!({"scenario": sc.name, "seed": seed, "path": path}));
             }
         }
-        self.graph_digests.push(json!({"scenario": sc.name, "states": rep.states, "transitions": rep.transitions,
+        self.graph_digests.push(json!({"scenario": sc.name, "states": rep.states, "transitions": rep.transitions, "capped": rep.capped.is_some(),
             "state_xor": format!("{:032x}", rep.state_acc.0), "state_sum": format!("{:032x}", rep.state_acc.1),
             "transition_xor": format!("{:032x}", rep.trans_acc.0), "transition_sum": format!("{:032x}", rep.trans_acc.1)}));
         let ok_actions = rep.tags.iter().filter(|(k, _)| k.ends_with(":ok")).count();
